@@ -68,12 +68,12 @@ claimed = {
     "C09": dict(
         level="model_checking",
         text="input.Merge and its helpers executed symbolically on three symbolic inputs: associativity, identity of the empty file and the per-attribute laws (later scalar wins, maps united with later values winning, non-empty arguments replace, calls/tags/decorators append) are solver obligations over all nil-patterns and symbolic contents within the bound.",
-        note="Trusted: executor, solvers. The file-order fold of StepReadConfig is checked under C10's environment stubs; byte-identity of split vs unsplit output follows from these laws plus C08 and is not rendered.",
+        note="Trusted: executor, solvers. The file-order fold of StepReadConfig is checked under C10's environment stubs (os.ReadFile + yaml.Unmarshal or os.Open + yaml.Decoder, files without any YAML document included); byte-identity of split vs unsplit output follows from these laws plus C08 and is not rendered.",
         design="5.9"),
     "C10": dict(
         level="model_checking",
-        text="The real RunE of `gontainer build` is executed symbolically on the wiring as shipped (internal/gontainer.New runs on a model of the runtime container), over a schedule of symbolic faults (glob/read/YAML/gofmt/goimports/write), file layouts (incl. a file under two patterns, empty glob), configurations of every defect class and --stub/--quiet. Asserted: exit 0 iff exactly one successful write of the complete text as the last effect; otherwise nothing written, a numbered list with as many lines as the failing step's count; --quiet prints nothing and changes neither verdict nor file effect (2-safety).",
-        note="Trusted: environment stubs (all-or-nothing WriteFile; template executor opaque; gofmt/goimports fail-or-identity), cobra/pflag/color stubs, the runtime-container model (checked every run: the whole command's stdout must equal the native run's). argv parsing and main's exit-code mapping are outside.",
+        text="The real RunE of `gontainer build` is executed symbolically on the wiring as shipped (internal/gontainer.New runs on a model of the runtime container), over a schedule of symbolic faults (glob/read/YAML/gofmt/goimports/write), file layouts (incl. a file under two patterns, empty glob), configurations of every defect class and --stub/--quiet. Asserted: exit 0 iff exactly one successful write of the complete text as the last effect; otherwise nothing written, a numbered list with as many lines as the failing step's count; --quiet prints nothing and changes neither verdict nor file effect (2-safety, under every combination of --stub and the two ignore flags). The flags reach the command through cobra's ParseFlags as long-form arguments, so what flag parsing itself prints (deprecation notices) is part of the observed output.",
+        note="Trusted: environment stubs (all-or-nothing WriteFile; template executor opaque; gofmt/goimports fail-or-identity), cobra/pflag/color stubs, the runtime-container model (checked every run: the whole command's stdout must equal the native run's). Short-hand flags, required-flag enforcement and main's exit-code mapping are outside.",
         design="5.10"),
     "C12": dict(
         level="model_checking",
